@@ -322,21 +322,6 @@ Proof.
     + apply filter_ext. intro x. unfold notin. rewrite mem_dedup_last. reflexivity.
 Qed.
 
-(* the restriction on histories: no assignment through the empty tuple *)
-Definition op_ok (o : op) : Prop := match o with OSet kt _ => kt <> [] | _ => True end.
-
-Lemma mstep_coherent d a o :
-  Coherent d a -> op_ok o ->
-  Coherent (fst (mstep d o)) (fst (astep false a o)) /\ snd (mstep d o) = snd (astep false a o).
-Proof.
-  intros HC Hok. destruct o as [kt v|k|k]; simpl.
-  - destruct (setitem_coherent d a kt v HC Hok) as [d' [Hd' HC']]. rewrite Hd'. simpl. split; [exact HC'|reflexivity].
-  - unfold aspec_del. destruct (aval a k) as [v|] eqn:Hk.
-    + destruct (delitem_coherent d a k v HC Hk) as [d' [Hd' HC']]. rewrite Hd'. simpl. split; [exact HC'|reflexivity].
-    + rewrite (delitem_coherent_none d a k HC Hk). simpl. split; [exact HC|reflexivity].
-  - split; [exact HC|reflexivity].
-Qed.
-
 (* ------------------------------------------------------------------ *)
 (* the observable view                                                 *)
 Definition seteqP {A} (a b : list A) : Prop := length a = length b /\ incl a b /\ incl b a.
@@ -466,6 +451,32 @@ Qed.
 
 (* ------------------------------------------------------------------ *)
 (* forward simulation over whole histories                             *)
+(* the restriction on histories: no assignment through the empty tuple *)
+Definition op_ok (o : op) : Prop := match o with OSet kt _ => kt <> [] | _ => True end.
+
+(* observations raise exactly when the specification says so *)
+Lemma qraises_coherent d a q : Coherent d a -> qraises d q = aq_raises a q.
+Proof.
+  intro HC. destruct (coherent_view d a HC) as [H1 [H2 _]].
+  destruct q as [k|k|v| |]; simpl; try reflexivity.
+  - specialize (H1 k). destruct (getitem d k), (aval a k); simpl in *; congruence.
+  - specialize (H2 k). destruct (key2keys d k), (aval a k); simpl in *; congruence.
+Qed.
+
+Lemma mstep_coherent d a o :
+  Coherent d a -> op_ok o ->
+  Coherent (fst (mstep d o)) (fst (astep false a o)) /\ snd (mstep d o) = snd (astep false a o).
+Proof.
+  intros HC Hok. destruct o as [kt v|k|k|kt|q]; simpl.
+  - destruct (setitem_coherent d a kt v HC Hok) as [d' [Hd' HC']]. rewrite Hd'. simpl. split; [exact HC'|reflexivity].
+  - unfold aspec_del. destruct (aval a k) as [v|] eqn:Hk.
+    + destruct (delitem_coherent d a k v HC Hk) as [d' [Hd' HC']]. rewrite Hd'. simpl. split; [exact HC'|reflexivity].
+    + rewrite (delitem_coherent_none d a k HC Hk). simpl. split; [exact HC|reflexivity].
+  - split; [exact HC|reflexivity].
+  - split; [exact HC|reflexivity].
+  - split; [exact HC|apply qraises_coherent; exact HC].
+Qed.
+
 Lemma mkd_refines_gen ks vs ops : forall d a,
   Coherent d a -> Forall op_ok ops ->
   Forall2 view_ok (mrun ks vs d ops) (arun false ks vs a ops).
